@@ -349,6 +349,24 @@ def cellFromExcel {N F : Type} (nc : NumCodec N) (ctx : Ctx) (v : Option Txt) (v
     else if ty == "inlineStr".toList then .unmodelled
     else .ok (mk (.err .error o (txt "#ERROR!"))) ctx.sst
 
+/-- the `<v>` child: `if vs.len() == 1 { Some(vs[0].text().unwrap_or("")) } else { None }` -/
+def cellValue (cell : Node) : Option Txt :=
+  match cell.named "v" with
+  | [x] => some (x.firstText.getD [])
+  | _ => none
+
+/-- the cell type: the `t` attribute, else "empty" without a value and "n" with one -/
+def cellType (cell : Node) (v : Option Txt) : List Char :=
+  match cell.attr "t" with
+  | some t => t
+  | none => if v.isNone then "empty".toList else "n".toList
+
+/-- the style index: `s.parse::<i32>().unwrap_or(0)`, 0 without the attribute -/
+def readStyle (o : Option (List Char)) : Int :=
+  match o with
+  | some x => (parseI32 x).getD 0
+  | none => 0
+
 /-- models the body of `for cell in row.children()` of load_sheet -/
 def readCell {N F : Type} (nc : NumCodec N) (fc : FCodec F) (ctx : Ctx) (cell : Node) : RRes N F :=
   match cell.attr "r" with
@@ -358,21 +376,12 @@ def readCell {N F : Type} (nc : NumCodec N) (fc : FCodec F) (ctx : Ctx) (cell : 
     | none => .err
     | some pos =>
       let vm := cell.attr "vm"
-      let v : Option Txt :=
-        match cell.named "v" with
-        | [x] => some (x.firstText.getD [])
-        | _ => none
+      let v := cellValue cell
       if !(cell.named "is").isEmpty then .unmodelled
       else
         let isDynamic := cell.attr "cm" == some ['1']
-        let ty : List Char :=
-          match cell.attr "t" with
-          | some t => t
-          | none => if v.isNone then "empty".toList else "n".toList
-        let s : Int :=
-          match cell.attr "s" with
-          | some x => (parseI32 x).getD 0
-          | none => 0
+        let ty := cellType cell v
+        let s := readStyle (cell.attr "s")
         match readFormula fc ctx cell r pos isDynamic with
         | .err => .err
         | .unmodelled => .unmodelled
